@@ -97,6 +97,11 @@ class Gen:
             name = "f%d" % i if r.random() < 0.8 or not flow_names else r.choice(flow_names)
             o = {"op": "flow", "kind": kind, "name": name,
                  "param": self.rate(allow_time=not want.get("no_time", False), allow_state=allow_state, ncomp=ncomp)}
+            if want.get("signed") and r.random() < want["signed"]:
+                # rates that are negative, or change sign in time (net migration, signed transfers): still weight x law
+                o["param"] = r.choice(["-" + frac(r), {"-": [frac(r), {"*": [frac(r, 3), "t"]}]},
+                                       {"-": [{"*": [frac(r, 3), "t"]}, frac(r, 5)]},
+                                       {"lin": ["t", ["0", "4", "8"], ["-" + frac(r), frac(r), "-" + frac(r)]]}])
             if kind in ("crude_birth", "replacement_birth", "importation"):
                 o["dst"] = r.choice(comps)
                 if kind == "importation":
@@ -251,6 +256,19 @@ class Gen:
                 ops.append(o2)
                 flow_names.append(o2["name"])
                 meta["flows"].append("post-strat")
+            if want.get("cross_strain") and kind == "strain" and len(strata) >= 2 and kinds_nonlin and len(scomps) >= 1 \
+                    and r.random() < want["cross_strain"]:
+                # re-infection with another strain: an infection flow whose source and destination carry different strains
+                s_ = r.choice(scomps)
+                d_ = r.choice([c_ for c_ in scomps if c_ in inf] or scomps)
+                ikind = next((o_["kind"] for o_ in ops if o_["op"] == "flow" and o_["kind"].startswith("infection")), None)
+                if ikind is not None:
+                    a_, b_ = r.sample(strata, 2)
+                    nm = "reinf%d" % k
+                    ops.append({"op": "flow", "kind": ikind, "name": nm, "param": frac(r), "src": s_, "dst": d_,
+                                "sf": {name: a_}, "df": {name: b_}})
+                    flow_names.append(nm)
+                    meta["flows"].append("cross-strain infection")
             if want.get("cross") and len(strata) >= 2 and r.random() < want["cross"]:
                 s_ = r.choice(scomps)
                 d_ = r.choice(scomps)
@@ -258,6 +276,9 @@ class Gen:
                 for b_ in strata[1:]:
                     ops.append({"op": "flow", "kind": "transition", "name": nm, "param": frac(r), "src": s_, "dst": d_,
                                 "sf": {name: strata[0]}, "df": {name: b_}})
+                # ... and one coming back, so that "out of" and "into" the first stratum are different non-empty selections
+                ops.append({"op": "flow", "kind": "transition", "name": nm, "param": frac(r), "src": d_, "dst": s_,
+                            "sf": {name: strata[1]}, "df": {name: strata[0]}})
                 flow_names.append(nm)
                 cross[nm] = (name, strata[0], strata[1:])
                 meta["flows"].append("cross-stratum")
@@ -281,16 +302,22 @@ class Gen:
         # derived output requests
         reqs = []
         if want.get("requests", r.random() < 0.5):
-            ops_r, reqs = self.requests(comps, flow_names, used, strat_strata, ncomp)
+            ops_r, reqs = self.requests(comps, flow_names, used, strat_strata, ncomp, cross)
             ops += ops_r
             meta["reqs"] = [x["req"]["type"] for x in ops_r if x["op"] == "req"]
         prog = {"times": [t0, t1, h], "comps": comps, "inf": inf, "ops": ops, "obs": [], "meta": meta,
                 "nonlinear": bool(kinds_nonlin or allow_state)}
         return prog
 
-    def requests(self, comps, flow_names, used, strat_strata, ncomp):
+    def requests(self, comps, flow_names, used, strat_strata, ncomp, cross=None):
         r = self.rng
         ops, names = [], []
+        for nm_, (sname_, a_, bs_) in sorted((cross or {}).items())[:1]:
+            # outflow of a stratum and inflow into strata, for the same flow name: the same pairs on either end
+            for j_, (end_, val_) in enumerate([("sf", a_), ("df", a_), ("df", bs_[0])]):
+                ops.append({"op": "req", "name": "x%d" % j_, "save": True,
+                            "req": {"type": "flow", "flow_name": nm_, "raw": True, end_: {sname_: val_}}})
+                names.append("x%d" % j_)
         if r.random() < 0.4:
             ops.append({"op": "cv", "name": "cvA", "e": {"+": [{"c": 0}, {"*": ["1/2", "t"]}]}})
         n = r.randint(1, 6)
@@ -305,7 +332,13 @@ class Gen:
                 if r.random() < 0.5 and flow_names:
                     rq = {"type": "flow", "flow_name": r.choice(flow_names), "raw": r.random() < 0.5}
                     if filt and r.random() < 0.5:
-                        rq["sf" if r.random() < 0.5 else "df"] = filt
+                        end = "sf" if r.random() < 0.5 else "df"
+                        rq[end] = filt
+                        if r.random() < 0.6:
+                            # the same flow name selected by the same pairs on the other end (inflow vs outflow of a stratum)
+                            twin = {"type": "flow", "flow_name": rq["flow_name"], "raw": rq["raw"], ("df" if end == "sf" else "sf"): filt}
+                            ops.append({"op": "req", "name": nm + "t", "save": True, "req": twin})
+                            names.append(nm + "t")
                 else:
                     rq = {"type": "comp", "names": r.sample(comps, r.randint(1, len(comps))), "filt": filt}
             elif c < 0.5:
